@@ -218,19 +218,22 @@ func runUDP(t *testing.T, r *rep.Report, state string, ms methodSpec, noAuth boo
 			if state == "other-user" {
 				user, pass = "u2", vtx.Users["u2"]
 			}
+			if state == "other-user-case" {
+				user, pass = "U1", vtx.Users["U1"] // a different account whose name differs from the owner's in letter case only
+			}
 			nonce := c1.Nonce
 			for _, d := range defects(nonce) {
-				if state == "other-user" && !d.valid {
+				if otherUser(state) && !d.valid {
 					continue // the other-user column is the defect itself
 				}
 				if sameTx && d.valid && own {
 					continue // the genuine retransmission (idempotent success) is C19's subject
 				}
-				if d.valid && state != "other-user" && (!ms.needsAlloc || own) && !(ms.method == wire.Allocate && own) {
+				if d.valid && !otherUser(state) && (!ms.needsAlloc || own) && !(ms.method == wire.Allocate && own) {
 					continue // the legitimate request is sent last (it changes state)
 				}
 				label := fmt.Sprintf("udp/%s/%s/%s", state, ms.name, d.name)
-				if state == "other-user" {
+				if otherUser(state) {
 					label = fmt.Sprintf("udp/%s/%s/valid-credentials-of-another-user", state, ms.name)
 				}
 				r.Evaluations++
@@ -264,7 +267,7 @@ func runUDP(t *testing.T, r *rep.Report, state string, ms methodSpec, noAuth boo
 
 					return
 				}
-				if d.wantChallenge != 0 && state != "other-user" {
+				if d.wantChallenge != 0 && !otherUser(state) {
 					if resp == nil || resp.Class != wire.Error || resp.ErrorCode() != d.wantChallenge {
 						fail(fmt.Sprintf("challenge-%d-expected:%s", d.wantChallenge, classOf(d, state)), got)
 					} else {
@@ -295,7 +298,7 @@ func runUDP(t *testing.T, r *rep.Report, state string, ms methodSpec, noAuth boo
 				}
 			}
 			// finally the valid request with the latest challenge nonce must work where it should
-			if state != "other-user" && !sameTx {
+			if !otherUser(state) && !sameTx {
 				tx := w.NextTx()
 				c1.Send(build(ms.method, tx, ms.attrs, c1.User, c1.Pass, nonce, defect{name: "none", mi: "ok", valid: true}))
 				synctest.Wait()
@@ -318,8 +321,10 @@ func runUDP(t *testing.T, r *rep.Report, state string, ms methodSpec, noAuth boo
 	}
 }
 
+func otherUser(state string) bool { return state == "other-user" || state == "other-user-case" }
+
 func classOf(d defect, state string) string {
-	if state == "other-user" {
+	if otherUser(state) {
 		return "other-users-valid-credentials"
 	}
 	switch {
@@ -339,7 +344,7 @@ func TestC03Server(t *testing.T) {
 	defer r.Write()
 	shard, n := rep.Shard()
 	idx := 0
-	for _, state := range []string{"none", "own", "own-anon", "other-user"} {
+	for _, state := range []string{"none", "own", "own-anon", "other-user", "other-user-case"} {
 		for _, ms := range udpMethods() {
 			idx++
 			if idx%n != shard {
